@@ -401,6 +401,29 @@ def check_c15(res, ctx):
         ol.append("objeq %s %s" % (a.script(), b.script()))
     compare(res, ctx, ol, "c15 object equality", oracle=oracle_c15,
             rule="pairs of objects of all types: identical, one element/bit/length changed, other type of the same size, other count")
+    # "keep their stated length and all bytes through create and copy": string/binary objects built
+    # from buffers that continue past the stated length (empty elements, embedded NULs), dumped,
+    # written and read back
+    cl = []
+    for _ in range(400 if ctx.tier == "quick" else 6000):
+        tid = r.choice([10, 12])
+        n = r.choice([1, 1, 2, 3, 5])
+        els = [r.choice([b"", b"", b"a", b"ab\0c", b"\0", b"\0\0", gen.rstr(r)]) for _ in range(n)]
+        cl.append("oarr " + ref.Obj(tid, els).script())
+
+    def oracle_keep(l, h):
+        t = l.split()
+        tid, n = int(t[1]), int(t[2])
+        want = ",".join(t[3:3 + n])
+        m = re.search(r" ra=0@\d+:%d:%d:([0-9a-f,\-]*):eq=(-?\d+)" % (tid, n), h)
+        if not m:
+            return None     # squashed or failed: left to the model comparison
+        if m.group(1) != want:
+            return "an object created from elements of stated lengths does not hold exactly those bytes: got %s" % m.group(1)[:120]
+        return None
+    compare(res, ctx, cl, "c15 create keeps stated length and bytes", oracle=oracle_keep,
+            rule="string/binary objects of 1..5 elements (empty, embedded NUL, random) created from buffers that continue past each stated length; content after create, write and read",
+            nontrivial=lambda l: " - " in l + " ", model_is_spec=True)
 
 
 # ----------------------------------------------------------------------------- C19
@@ -706,6 +729,18 @@ def check_c02(res, ctx):
                     els = [((i * 2654435761) % (1 << (8 * min(sz, 8)))).to_bytes(min(sz, 8), "little").hex() + "00" * (sz - min(sz, 8))
                            for i in range(n)]
                 longl.append("va %d %d %d %s" % (enc, tid, n, " ".join(els)))
+    for tid in ref.ALL_TIDS:
+        if ref.is_arr(tid):
+            continue
+        sz = ref.SIZES[tid]
+        base = gen.rbytes(r, sz) if tid != 1 else b"\1"
+        for pos in range(sz):
+            for bit in (1, 0x80):
+                other = bytearray(base)
+                other[pos] ^= bit
+                other = bytes(other)
+                for enc in (1, 2, 3):
+                    lines.append("full va %d %s" % (enc, ref.Obj(tid, [base, base, other, other, base, other]).script()))
     compare(res, ctx, longl, "c02 long arrays",
             oracle=lambda l, h: None if re.search(r" live=0$", h) and " rd=0" in h else "long array did not round-trip: " + h[:200],
             rule="arrays of 16385..100001 distinct fixed-size values (1/4/8/16-byte types), plain and run-length: create, decode, write, read, decode; digests of model and implementation compared",
@@ -740,6 +775,28 @@ def check_c10(res, ctx):
             rule="random operation sequences over 3 registers (create/add/add_str/add_int/remove/get/get_dflt/exists/cnt/copy/freeze/table-metadata creation), small and full alphabets, lengths 5..200; thorough adds all sequences to depth 4 over a 17-op alphabet",
             nontrivial=lambda l: l.count(" add") >= 2, model_is_spec=True)
     ctx.model_is_spec = True
+    # metadata RETURNED BY THE READER is the same map: every name it lists is found by
+    # sbdf_md_exists / sbdf_md_get / sbdf_md_get_dflt (the dump carries these probes), for
+    # table-level and column metadata alike
+    fl = []
+    for _ in range(200 if ctx.tier == "quick" else 4000):
+        t = gen.rtable(r, consistent=True, small=True, maxslices=1)
+        if not t.tmd and r.random() < 0.8:
+            t.tmd = gen.rmd(r, gen.NAMES, 3) or [(b"k", ref.Obj(2, [b"\1\0\0\0"]), None)]
+        fl.append("fr %s -" % bytes(t.canon().encode().b).hex())
+
+    def oracle_fr(l, h):
+        # every probe of a listed name must succeed: gN (value) 0, eN (exists) 1
+        if " tm=0:" not in h:
+            return None
+        for sec in re.findall(r"c\d+\[([^\]]*)\]", h):
+            for item in sec.split(","):
+                if item and not item.startswith("#") and not re.match(r"^g0:.*d(0|-\d+).*e1$", item):
+                    return "a name listed by metadata the reader returned is not found by name (probe '%s')" % item[:80]
+        return None
+    compare(res, ctx, fl, "c10 lookups on metadata returned by the reader", oracle=oracle_fr,
+            rule="files with table-level and column metadata read back; every listed name probed with sbdf_md_get / sbdf_md_get_dflt / sbdf_md_exists",
+            nontrivial=lambda l: len(l) > 60, model_is_spec=True)
 
 
 def rcs_line(r, nadds):
@@ -826,7 +883,7 @@ def table_lines(ctx, n, kind="rt", prefix="", small=False, incons=0.08):
             t = ref.Table([], [[(b"Name", ref.Obj(10, [b"c0"]), None)]], [[((r.choice([0, 1, 2]), o), [])]])
             out.append((t, "cap=100000000 %s%s %s" % (prefix, kind, t.script())))
         # a long column (more rows than any staging buffer): distinct values, plain and run-length
-        for tid, n in ((2, 20000), (13, 17000)) if ctx.tier == "quick" else ((2, 70000), (3, 40000), (13, 33000)):
+        for tid, n in ((2, 66000), (13, 17000)) if ctx.tier == "quick" else ((2, 70000), (3, 140000), (13, 33000)):
             sz = ref.SIZES[tid]
             o = ref.Obj(tid, [((i * 2654435761) % (1 << 32)).to_bytes(4, "little") + b"\0" * (sz - 4) for i in range(n)])
             t = ref.Table([], [[(b"Name", ref.Obj(10, [b"c0"]), None)], [(b"Name", ref.Obj(10, [b"c1"]), None)]],
